@@ -5,6 +5,7 @@
 //   rs  seed N lin circ quat w_0..w_{N-1}  -> Resampling::resample / neff on a set with distinct columns
 //   rwp seed N lin circ quat ratio w_0..   -> ResamplingWithPrior::resample with a deterministic initialiser
 //   seq seed kind ratio ncalls (N lin circ quat w..) x ncalls -> ONE resampling object serving successive calls of different sizes
+//   pipe seedR seedM seedT K nx ny surv sigma q -> the shipped test_SIS pipeline end to end
 //   glik scale fail m N y P R              -> GaussianLikelihood::likelihood on a measurement model whose calls can fail
 //   sis seed N lin circ K D prior ratio u.. E (w0.. x0..) x E (ncmd cmd.. freeze valid reset shift l_0..l_{N-1}) x K
 //                                          -> the real SIS filter thread, scripted models, K steps
@@ -22,6 +23,10 @@
 #include <BayesFilters/MeasurementModel.h>
 #include <BayesFilters/LikelihoodModel.h>
 #include <BayesFilters/GaussianLikelihood.h>
+#include <BayesFilters/InitSurveillanceAreaGrid.h>
+#include <BayesFilters/WhiteNoiseAcceleration.h>
+#include <BayesFilters/SimulatedStateModel.h>
+#include <BayesFilters/SimulatedLinearSensor.h>
 #include <BayesFilters/any.h>
 #include <BayesFilters/utils.h>
 #include <cmath>
@@ -448,6 +453,79 @@ static std::string op_sis(Toks& t) {
     return o.str();
 }
 
+// ----------------------------------------------------------------------------- pipe
+// The shipped pipeline of test_SIS run end to end: InitSurveillanceAreaGrid, DrawParticles over WhiteNoiseAcceleration,
+// BootstrapCorrection over SimulatedLinearSensor(SimulatedStateModel(WhiteNoiseAcceleration)) and GaussianLikelihood,
+// Resampling (logging subclass, twin generator).   pipe seedR seedM seedT K nx ny surv sigma q
+struct PSIS : public SIS {
+    PSIS(long K, ResLog* log, unsigned int n, std::unique_ptr<ParticleSetInitialization> i, std::unique_ptr<PFPrediction> p,
+         std::unique_ptr<PFCorrection> c, std::unique_ptr<Resampling> r)
+        : SIS(n, 4, std::move(i), std::move(p), std::move(c), std::move(r)), K_(K), log_(log) {}
+    bool run_condition() override { return static_cast<long>(step_number()) < K_; }
+    bool initialization_step() override { init_ok_ = SIS::initialization_step(); return init_ok_; }
+    void log() override { ++log_calls_; lw_.assign(cor_particle_.weight().data(), cor_particle_.weight().data() + cor_particle_.weight().size()); SIS::log(); }
+    void filtering_step() override {
+        *log_ = ResLog(); log_calls_ = 0; lw_.clear();
+        SIS::filtering_step();
+        const ParticleSet& c = cor_particle_; const ParticleSet& p = pred_particle_;
+        Out o; o.s("P");
+        o.n(c.components).n(c.dim_linear).n(c.dim_circular).n(c.state().cols()).n(c.state().rows()).n(c.weight().rows());
+        o.n(log_->called ? 1 : 0).d(log_->neff).n(log_->u1ok ? 1 : 0).d(log_->u1);
+        o.n(log_->parents.size()); for (int q : log_->parents) o.n(q);
+        for (long i = 0; i < c.weight().rows(); ++i) o.d(c.weight()(i));
+        for (long i = 0; i < c.state().cols(); ++i) o.d(c.state()(0, i));
+        o.n(log_->cw.size()); for (double v : log_->cw) o.d(v);
+        o.n(lw_.size()); for (double v : lw_) o.d(v);
+        o.n(p.weight().rows()); for (long i = 0; i < p.weight().rows(); ++i) o.d(p.weight()(i));
+        o.n(p.state().cols());
+        for (long i = 0; i < p.state().cols(); ++i) o.d(p.state()(0, i));
+        for (long i = 0; i < p.state().cols(); ++i) o.d(p.state()(2, i));
+        // the measurement the correction used and the likelihood it reports (queried twice: the answers must agree)
+        bool vm; Data dm; std::tie(vm, dm) = correction().getMeasurementModel().measure();
+        MatrixXd y = vm ? any::any_cast<MatrixXd>(dm) : MatrixXd(MatrixXd::Zero(2, 1));
+        o.n(vm ? 1 : 0).d(y(0, 0)).d(y(1, 0));
+        bool vl, vl2; VectorXd lk, lk2;
+        std::tie(vl, lk) = correction().getLikelihood();
+        std::tie(vl2, lk2) = correction().getLikelihood();
+        bool same = (vl == vl2) && lk.size() == lk2.size(); for (long i = 0; same && i < lk.size(); ++i) if (vh::hx(lk(i)) != vh::hx(lk2(i))) same = false;
+        o.n(vl ? 1 : 0).n(same ? 1 : 0).n(lk.size()); for (long i = 0; i < lk.size(); ++i) o.d(lk(i));
+        bool copies = true;
+        if (log_->called) {
+            copies = (long)log_->parents.size() == (long)c.state().cols();
+            for (long j = 0; copies && j < c.state().cols(); ++j) {
+                long q = log_->parents[j];
+                if (q < 0 || q >= log_->cor_state.cols()) { copies = false; break; }
+                MatrixXd a = c.state().col(j), bcol = log_->cor_state.col(q);
+                if (!vh::same_bits(a, bcol)) copies = false;
+            }
+        }
+        o.n(copies ? 1 : 0).n(log_calls_);
+        blocks.push_back(o.str());
+    }
+    long K_; ResLog* log_; bool init_ok_ = false; long log_calls_ = 0; std::vector<double> lw_; std::vector<std::string> blocks;
+};
+
+static std::string op_pipe(Toks& t) {
+    unsigned long seedR = t.nat(), seedM = t.nat(), seedT = t.nat(); long K = t.nat(), nx = t.nat(), ny = t.nat();
+    double surv = t.dbl(), sigma = t.dbl(), q = t.dbl(); t.done();
+    long n = nx * ny; ResLog log;
+    std::unique_ptr<ParticleSetInitialization> init(new InitSurveillanceAreaGrid(surv, surv, (unsigned int)nx, (unsigned int)ny));
+    std::unique_ptr<StateModel> wna(new WhiteNoiseAcceleration(WhiteNoiseAcceleration::Dim::TwoD, 1.0, q, (unsigned int)seedM));
+    std::unique_ptr<PFPrediction> pred(new DrawParticles(std::move(wna)));
+    std::unique_ptr<StateModel> target(new WhiteNoiseAcceleration(WhiteNoiseAcceleration::Dim::TwoD, 1.0, q, (unsigned int)seedT));
+    Vector4d x0(surv / 2.0, 0.0, surv / 3.0, 0.0);
+    std::unique_ptr<SimulatedStateModel> sim(new SimulatedStateModel(std::move(target), x0, (unsigned int)(K + 2)));
+    MatrixXd R(2, 2); R << sigma * sigma, 0.0, 0.0, sigma * sigma;
+    std::unique_ptr<MeasurementModel> sensor(new SimulatedLinearSensor(std::move(sim), SimulatedLinearSensor::LinearMatrixComponent{ 4, std::vector<std::size_t>{ 0, 2 } }, R));
+    std::unique_ptr<PFCorrection> corr(new BootstrapCorrection(std::move(sensor), std::unique_ptr<LikelihoodModel>(new GaussianLikelihood())));
+    std::unique_ptr<Resampling> res(new SResampling((unsigned int)seedR, n, &log));
+    PSIS f(K, &log, (unsigned int)n, std::move(init), std::move(pred), std::move(corr), std::move(res));
+    bool ok = f.boot(); f.run(); ok = f.wait() && ok;
+    Out o; o.s(ok ? "ok" : "thread-failed").n(f.init_ok_ ? 1 : 0).n(f.blocks.size());
+    for (auto& b : f.blocks) o.s(b);
+    return o.str();
+}
+
 // ----------------------------------------------------------------------------- glik
 
 // measurement model whose four calls can be made to fail; innovation = predicted - measurement (column-wise)
@@ -488,6 +566,7 @@ int main() {
         if (op == "seq") { out = op_seq(t); return true; }
         if (op == "sis") { out = op_sis(t); return true; }
         if (op == "glik") { out = op_glik(t); return true; }
+        if (op == "pipe") { out = op_pipe(t); return true; }
         return false;
     });
 }
